@@ -217,7 +217,8 @@ theorem step_drop {s : Sys} (hi : SysInv s) (h : Nat) : StepGood s (s.step (.dro
   · rename_i v hv
     exact stepGood_release hi v _ rfl ((Tab.del_perm s.handles h v hv).append_right s.objs.tois)
 
-theorem step_add {s : Sys} (hi : SysInv s) (k : Nat) (b : Bool) : StepGood s (s.step (.add k b)) := by
+theorem step_add {s : Sys} (hi : SysInv s) (k : Nat) (b car : Bool) :
+    StepGood s (s.step (.add k b car)) := by
   simp only [Sys.step]
   split
   · exact stepGood_same hi _
@@ -310,16 +311,19 @@ theorem step_drain {s : Sys} (hi : SysInv s) : StepGood s (s.step .drain) := by
     split
     · exact stepGood_same hi _
     · rename_i v hv
-      refine stepGood_release hi v _ rfl ?_
-      simp only [Sys.live]
-      exact ((Tab.del_perm s.objs k v hv).append_left s.handles.tois).trans List.perm_middle
+      split
+      · exact stepGood_perm hi (by rfl) (by exact List.Perm.refl _) _
+      · refine stepGood_release hi v _ (by rfl) ?_
+        simp only [Sys.live]
+        exact ((Tab.del_perm s.objs k v hv).append_left s.handles.tois).trans List.perm_middle
 
 theorem step_good {s : Sys} (hi : SysInv s) (op : Op) : StepGood s (s.step op) := by
   cases op with
   | alloc h => exact step_alloc hi h
   | drop h => exact step_drop hi h
-  | add k b => exact step_add hi k b
+  | add k b car => exact step_add hi k b car
   | addWith k h b => exact step_addWith hi k h b
+  | addEarlyErr k => simp only [Sys.step]; exact stepGood_same hi _
   | remove k => exact step_remove hi k
   | start k => exact step_start hi k
   | drain => exact step_drain hi
@@ -450,8 +454,8 @@ theorem alloc_events {s s' : Sys} {h v : Nat} {evs : List Ev}
     · injection hs with hs; injection hs with _ e2; injection e2 with e2 e3
       injection e2 with e2; subst e2; exact e3.symm
 
-theorem add_events {s s' : Sys} {k v : Nat} {b : Bool} {evs : List Ev}
-    (hs : s.step (.add k b) = .ok (s', .toi v, evs)) : evs = [.allocated v] := by
+theorem add_events {s s' : Sys} {k v : Nat} {b car : Bool} {evs : List Ev}
+    (hs : s.step (.add k b car) = .ok (s', .toi v, evs)) : evs = [.allocated v] := by
   simp only [Sys.step] at hs
   split at hs
   · cases hs
